@@ -216,18 +216,23 @@ def h2(case):
                 return {'x': [ctx.sym_str(f'x{tag}a', exclude=ex), ctx.sym_str(f'x{tag}b', exclude=ex)] if quote
                         else ctx.sym_str(f'x{tag}', exclude=ex), 'y': ctx.sym_int(f'y{tag}')}
             return {'x': ctx.sym_str(f'x{tag}', exclude=ex), 'right_value': ctx.sym_int(f'r{tag}'),
-                    'l': ctx.sym_str(f'l{tag}', exclude=ex)}
+                    'l': ctx.sym_str(f'l{tag}', exclude=ex), 'left_level': ctx.sym_int(f'lv{tag}')}
         v1, v2 = vals(1), vals(2)
         if quote:
             v2 = dict(v2, x=[ctx.sym_str('x2', exclude='')])
         cl = family.make_pipeline(spec)
         shared = None if keylib.in_replay() else instr.SymDict()
-        c1 = keylib.chain(keylib.config(fs, cl.values(), v1, name='one', namespace=ns), shared=shared)
         ev2 = evaluator.evaluate(spec, v2, namespace=ns)
-        for n in c1.tasks:
-            c1.tasks[n].value
-        shared2 = None if keylib.in_replay() else instr.SymDict()
-        c2 = keylib.chain(keylib.config(fs, cl.values(), v2, name='two', namespace=ns), shared=shared2)
+        try:
+            c1 = keylib.chain(keylib.config(fs, cl.values(), v1, name='one', namespace=ns), shared=shared)
+            for n in c1.tasks:
+                c1.tasks[n].value
+            shared2 = None if keylib.in_replay() else instr.SymDict()
+            c2 = keylib.chain(keylib.config(fs, cl.values(), v2, name='two', namespace=ns), shared=shared2)
+        except Exception as e:        # a valid configuration: building and computing it must not fail
+            ctx.check_concrete(False, 'own-value-symbolic', {'pipe': pipe, 'ns': ns, 'v1': describe(v1), 'v2': describe(v2),
+                                                             'error': f'{type(e).__name__}: {e}'[:200]})
+            return
         known = None
         if quote:
             strs = [v1['x'][0], v1['x'][1], v2['x'][0]]
